@@ -2,6 +2,7 @@ package scen
 
 import (
 	"fmt"
+	"regexp"
 	"sort"
 	"strings"
 )
@@ -25,13 +26,13 @@ type Param struct {
 // Method is one controller method with its annotations.
 type Method struct {
 	Name       string   `json:"name"`
-	Verb       string   `json:"verb"`            // "" = no @Method annotation
-	Route      *string  `json:"route"`           // nil = no @Route annotation
+	Verb       string   `json:"verb"`  // "" = no @Method annotation
+	Route      *string  `json:"route"` // nil = no @Route annotation
 	Hidden     bool     `json:"hidden,omitempty"`
 	Deprecated bool     `json:"deprecated,omitempty"`
 	Params     []Param  `json:"params,omitempty"`
-	Ret        string   `json:"ret,omitempty"` // value type; "" = error only
-	Err        string   `json:"err,omitempty"` // error type, default "error"; "-" = no error return at all
+	Ret        string   `json:"ret,omitempty"`      // value type; "" = error only
+	Err        string   `json:"err,omitempty"`      // error type, default "error"; "-" = no error return at all
 	Response   string   `json:"response,omitempty"` // "201 Created" -> @Response(201) Created
 	ErrResps   []string `json:"err_resps,omitempty"`
 	Security   []Sec    `json:"security,omitempty"`
@@ -269,7 +270,7 @@ func Render(p *Project, units []Unit) []string {
 			} else {
 				alias = path[strings.LastIndexByte(path, '/')+1:]
 			}
-			if alias == "." || alias == "_" || strings.Contains(body, alias+".") {
+			if alias == "." || alias == "_" || regexp.MustCompile(`(^|[^A-Za-z0-9_])`+regexp.QuoteMeta(alias)+`\.`).MatchString(body) {
 				if alias == path[strings.LastIndexByte(path, '/')+1:] {
 					imps = append(imps, fmt.Sprintf("\t%q", path))
 				} else {
